@@ -628,6 +628,12 @@ func c15bridge(c *Ctx) {
 	}
 	levels := []slog.Level{slog.PanicLevel, slog.ErrorLevel, slog.WarnLevel, slog.InfoLevel, slog.DebugLevel, slog.TraceLevel, slog.OffLevel, slog.AlwaysLevel}
 	sevs := []slog.Level{slog.ErrorLevel, slog.WarnLevel, slog.InfoLevel, slog.DebugLevel, slog.TraceLevel, slog.AlwaysLevel, slog.OKLevel, slog.FailLevel}
+	// severities of the application (registered, outside the built-in range, with a treated-as entry): a bridge at such
+	// a severity emits records of THAT severity, admitted by its treated-as entry
+	registerCustomLevels()
+	sevs = append(sevs, lvlFgOnly, lvlFgBg, lvlNoClr)
+	treat[lvlFgOnly], treat[lvlFgBg], treat[lvlNoClr] = slog.InfoLevel, slog.ErrorLevel, slog.DebugLevel
+	ownTitles := map[slog.Level]string{lvlFgOnly: "notice", lvlFgBg: "swell", lvlNoClr: "plainlvl"}
 	c.Each(func(idx int, r *gen.R) {
 		L := levels[idx%len(levels)]
 		sev := sevs[(idx/len(levels))%len(sevs)]
@@ -730,8 +736,13 @@ func c15bridge(c *Ctx) {
 			c.R.Violation(idx, "bridge-message", "C15/bridge-message/"+f.String(), fmt.Sprintf("record message %q, expected the std-log line minus its trailing newline %q", clip(d.Msg, 200), clip(wm, 200)), desc)
 			return
 		}
-		if d.Level != sev.String() {
-			c.R.Violation(idx, "bridge-severity", "C15/bridge-severity/"+className(sev), fmt.Sprintf("record level %q, bridge severity %q", d.Level, sev.String()), desc)
+		wantLevel := sev.String()
+		if t, ok := ownTitles[sev]; ok {
+			wantLevel = t
+			c.R.Add("bridge_records_at_a_registered_severity_of_the_application", 1)
+		}
+		if d.Level != wantLevel {
+			c.R.Violation(idx, "bridge-severity", "C15/bridge-severity/"+className(sev), fmt.Sprintf("record level %q, bridge severity %q", d.Level, wantLevel), desc)
 			return
 		}
 		if len(d.Attrs) != 0 {
